@@ -82,6 +82,12 @@ def _format_parts(expr, fi=None, depth=0):
                 body = _re.sub(r"%[-0-9.]*[diu]", "1", tmpl)
                 if "%" not in body:
                     return None, body
+            elif convs and tmpl[:1] in "<>=!@":
+                # constant byte-order prefix; a %s that stands for a type's struct code is some (possibly multi-byte) field
+                body = _re.sub(r"%[-0-9.]*[diu]", "1", tmpl)
+                body = _re.sub(r"%[-0-9.]*s", "L", body)
+                if "%" not in body:
+                    return None, body
     if isinstance(expr, ast.Call) and isinstance(expr.func, ast.Attribute) and expr.func.attr == "format" and isinstance(expr.func.value, ast.Constant) \
             and isinstance(expr.func.value.value, str) and not expr.keywords:
         import re as _re
